@@ -726,7 +726,9 @@ fn build_at(spec: &ProgSpec, orig: u16, force_orig_line: bool) -> Built {
     // one program in eight ends with a labelled `.break` that nothing follows: the label and the
     // breakpoint belong to the address right after the last statement (where the loader puts the
     // implicit HALT)
-    if spec.fit == 0 && spec.raw_words.is_none() && (spec.orig_val >> 9) & 7 == 3 {
+    // (also when the image is padded to end at 0xFFFF: label and breakpoint then sit on the last
+    // address there is)
+    if (spec.fit == 0 && (spec.orig_val >> 9) & 7 == 3 || spec.fit == 1 && (spec.orig_val >> 9) & 1 == 1) && spec.raw_words.is_none() {
         program.lines.push(Line { label: Some(("TAILBK".to_string(), spec.orig_val & 1 == 1)), body: Body::Break });
     }
 
